@@ -40,6 +40,47 @@ var c11workloads = []Op{
 	{Kind: "against", Def: `{"allOf":[{"type":"object"},{"properties":{"b":{"items":{"$ref":"#/definitions/nowhere"}}}}]}`, Val: `{"b":[1]}`},
 }
 
+// c11wrappers place a sub-schema S under every construct that owns child validators, together with
+// an instance transformer such that S is really reached (and reached after another child where the
+// construct has several).
+var c11wrappers = []struct {
+	name   string
+	schema string // %s = S
+	inst   string // %s = I
+}{
+	{"allOf", `{"allOf":[{"minLength":1},%s]}`, `%s`},
+	{"anyOf", `{"anyOf":[{"not":{}},%s,{}]}`, `%s`},
+	{"oneOf", `{"oneOf":[{"not":{}},%s]}`, `%s`},
+	{"not", `{"not":%s}`, `%s`},
+	{"items", `{"items":%s}`, `[%s,%s]`},
+	{"tuple", `{"items":[{},%s]}`, `[1,%s]`},
+	{"additionalItems", `{"items":[{}],"additionalItems":%s}`, `[1,%s]`},
+	{"properties", `{"properties":{"o":{"type":"integer"},"p":%s}}`, `{"o":1,"p":%s}`},
+	{"patternProperties", `{"patternProperties":{"^p":%s}}`, `{"p1":%s}`},
+	{"additionalProperties", `{"properties":{"o":{}},"additionalProperties":%s}`, `{"o":1,"q":%s}`},
+	{"dependencies", `{"dependencies":{"p":{"properties":{"p":%s}}}}`, `{"p":%s}`},
+}
+
+// c11generated: the format leaf under every wrapper and under every pair of wrappers.
+func c11generated() []Op {
+	leafS, leafI := `{"type":"string","format":"date"}`, `"2020-01-01"`
+	var out []Op
+	wrap := func(w int, s, i string) (string, string) {
+		ws := strings.Replace(c11wrappers[w].schema, "%s", s, -1)
+		wi := strings.Replace(c11wrappers[w].inst, "%s", i, -1)
+		return ws, wi
+	}
+	for a := range c11wrappers {
+		s1, i1 := wrap(a, leafS, leafI)
+		out = append(out, Op{Kind: "against", Def: s1, Val: i1})
+		for b := range c11wrappers {
+			s2, i2 := wrap(b, s1, i1)
+			out = append(out, Op{Kind: "against", Def: s2, Val: i2})
+		}
+	}
+	return out
+}
+
 func c11probes() []Op {
 	ops := c04sigma(false)
 	ops = append(ops,
@@ -49,6 +90,8 @@ func c11probes() []Op {
 	)
 	return ops
 }
+
+func c11allWorkloads() []Op { return append(append([]Op(nil), c11workloads...), c11generated()...) }
 
 func c11(c *hx.Ctx) int {
 	if c.Worker >= 0 {
@@ -72,12 +115,12 @@ func c11(c *hx.Ctx) int {
 		})
 		return r
 	}
-	rep := c.RunWorkers(len(c11workloads), 16)
+	rep := c.RunWorkers(len(c11allWorkloads()), 16)
 	cov := map[string]any{
 		"evaluations":         rep.Counters["executions"],
 		"distinct_nontrivial": rep.SetSize("faultcases"),
 		"fault_positions":     rep.Counters["fault_positions"],
-		"workloads":           len(c11workloads),
+		"workloads":           len(c11allWorkloads()),
 		"follow_up_histories": rep.Counters["histories"],
 		"distinct_outcomes":   rep.SetSize("outcomes"),
 		"rule":                "for each workload and EVERY fault position k reached by it (measured), recover the panic, then run each follow-up sequence from the probe alphabet with every single pool hand-out deviation; a case (workload, k, follow-up) is non-trivial when the fault really aborted the workload with a panic; distinct by construction",
@@ -91,7 +134,9 @@ func c11(c *hx.Ctx) int {
 func c11worker(c *hx.Ctx) int {
 	rep := hx.NewReport()
 	sets := hx.NewSetAdder()
-	w := c11workloads[c.Worker]
+	all := c11allWorkloads()
+	w := all[c.Worker]
+	generated := c.Worker >= len(c11workloads)
 	probes := c11probes()
 	// measure K: fault-free dry run with a counting registry
 	dry := w
@@ -109,6 +154,9 @@ func c11worker(c *hx.Ctx) int {
 	depth := 2
 	if !c.Quick() {
 		depth = 3
+	}
+	if generated {
+		depth-- // the 132 generated workloads get shorter follow-up sequences
 	}
 	for k := 1; k <= K; k++ {
 		fw := w
